@@ -234,6 +234,14 @@ func (c *checkSchema) ensureShortcutKeysAreValid(node *ischema.ObjectNode) error
 }
 
 func actualRootType(s, root *ischema.ISchema) json.Type {
+	return resolveRootType(s, root, make(map[string]struct{}, 2))
+}
+
+// resolveRootType is actualRootType with the names of the user types on the current
+// resolution chain. A type may list itself in its `or` (`@a | @b` registered as `@a`),
+// directly or through other types: a name that is already being resolved contributes
+// nothing new and is skipped, otherwise the resolution would never end.
+func resolveRootType(s, root *ischema.ISchema, resolving map[string]struct{}) json.Type {
 	t := s.RootNode().Type()
 	if t != json.TypeMixed {
 		return t
@@ -244,11 +252,16 @@ func actualRootType(s, root *ischema.ISchema) json.Type {
 		types := make(map[json.Type]struct{}, 2)
 		var tt json.Type
 		for _, tn := range n.GetTypes() {
+			if _, ok := resolving[tn]; ok {
+				continue
+			}
 			ss, err := root.Type(tn)
 			if err != nil {
 				return json.TypeMixed
 			}
-			tt = actualRootType(ss, root)
+			resolving[tn] = struct{}{}
+			tt = resolveRootType(ss, root, resolving)
+			delete(resolving, tn)
 			types[tt] = struct{}{}
 		}
 		if len(types) == 1 { // all USER TYPES (example: @aaa | @bbb) have the same type (example: string)
